@@ -6,6 +6,7 @@
 -/
 import Cosi.Driver.Store
 import Cosi.Driver.Watch
+import Cosi.Driver.Helpers
 
 open Cosi
 
@@ -16,7 +17,8 @@ structure Engine where
 
 def engines : List (String × Engine) := [
   ("store-seq", ⟨Driver.Store.St, Driver.Store.init, Driver.Store.stepLine⟩),
-  ("watch", ⟨WSys, Driver.Watch.init, Driver.Watch.stepLine⟩)
+  ("watch", ⟨WSys, Driver.Watch.init, Driver.Watch.stepLine⟩),
+  ("helpers", ⟨HSys, Driver.Helpers.init, Driver.Helpers.stepLine⟩)
 ]
 
 partial def loop (e : Engine) (spec : Bool) (inp : IO.FS.Stream) (out : IO.FS.Stream) (st : e.σ) : IO Unit := do
